@@ -1168,4 +1168,10 @@ theorem hstep_dl (J : Nat) (g : Nat → Nat × Nat) (s : HState) (op : HOp) (now
           have hlinv := h.inv l hl
           exact lookupTimeout_dl J g s now h hp timer e hpop t htask l hl haid'
 
+/-- a run of the handler: what it reacts to, with the instant of each reaction -/
+def HState.runOps (s : HState) : List (HOp × Nat) → HState
+  | [] => s
+  | (op, now) :: rest => HState.runOps (s.hstep op now) rest
+
+
 end Btdht
